@@ -504,7 +504,7 @@ impl H {
                 (_, Some((t, root))) => format!("mn:{}:{}", tid(*t), *root as u32),
                 _ => "?".into(),
             };
-            format!("{}:{}:r{}:b{}:g{}:s{}", w.id, a, join(w.resources.iter(), "+"), join(w.blocked.iter().map(|(a, b)| format!("{a}/{b}")), "+"), w.group, w.stopping as u32)
+            format!("{}:{}:r{}:b{}:g{}:s{}:F{}", w.id, a, join(w.resources.iter(), "+"), join(w.blocked.iter().map(|(a, b)| format!("{a}/{b}")), "+"), w.group, w.stopping as u32, w.free as u32)
         }), " ")).unwrap();
         writeln!(self.out, "= QUE {}", join(snap.queues.iter().map(|q| {
             format!("{}:{}:{}", q.rq, join(q.ready.iter().map(|(p, ids)| format!("{p}={}", tids(ids))), "/"),
